@@ -1,0 +1,138 @@
+//go:build verif
+// +build verif
+
+package runtime
+
+import "fmt"
+
+// VerifCheckInvariants walks the private representation of the table (read
+// only) and returns an error if one of its structural invariants is broken: the
+// chain invariants (I1)-(I3) of the hash part, no duplicate key, no live key in
+// both parts, no float key denoting an integer in the hash part, the array
+// length being the index of its last non-nil item, and nextFree pointing at a
+// free slot with only occupied slots above it.
+func (t *Table) VerifCheckInvariants() error {
+	m := t.mixedTable
+	if a := m.array; a != nil {
+		if a.len > uintptr(len(a.values)) {
+			return fmt.Errorf("array len %d beyond its size %d", a.len, len(a.values))
+		}
+		if a.len > 0 && a.values[a.len-1].IsNil() {
+			return fmt.Errorf("array len %d but item %d is nil", a.len, a.len)
+		}
+		for i := a.len; i < uintptr(len(a.values)); i++ {
+			if !a.values[i].IsNil() {
+				return fmt.Errorf("array len %d but item %d is not nil", a.len, i+1)
+			}
+		}
+	}
+	h := m.hashTable
+	if h == nil {
+		return nil
+	}
+	n := uintptr(len(h.slots))
+	if n != 1<<h.base {
+		return fmt.Errorf("hash part has %d slots, base %d", n, h.base)
+	}
+	mask := n - 1
+	if h.nextFree != noNextFree {
+		if h.nextFree >= n {
+			return fmt.Errorf("nextFree %d out of range %d", h.nextFree, n)
+		}
+		if !h.slots[h.nextFree].isEmpty() {
+			return fmt.Errorf("nextFree %d points at an occupied slot", h.nextFree)
+		}
+		for i := h.nextFree + 1; i < n; i++ {
+			if h.slots[i].isEmpty() {
+				return fmt.Errorf("slot %d above nextFree %d is empty", i, h.nextFree)
+			}
+		}
+	} else {
+		for i := uintptr(0); i < n; i++ {
+			if h.slots[i].isEmpty() {
+				return fmt.Errorf("table marked full but slot %d is empty", i)
+			}
+		}
+	}
+	for i := uintptr(0); i < n; i++ {
+		it := h.slots[i]
+		if it.isEmpty() {
+			if !it.value.IsNil() {
+				return fmt.Errorf("slot %d has a value but no key", i)
+			}
+			continue
+		}
+		if it.key.IsNaN() {
+			return fmt.Errorf("slot %d has a NaN key", i)
+		}
+		if _, isFloat := it.key.TryFloat(); isFloat {
+			if _, isInt := ToIntNoString(it.key); isInt {
+				return fmt.Errorf("slot %d holds a float key denoting an integer", i)
+			}
+		}
+		if k, ok := it.key.TryInt(); ok && !it.value.IsNil() {
+			if v, inArr := m.array.get(k); inArr {
+				_ = v
+				return fmt.Errorf("integer key %d has a live value in the hash part although it belongs to the array part", k)
+			}
+		}
+		for j := i + 1; j < n; j++ {
+			if !h.slots[j].isEmpty() && h.slots[j].key.Equals(it.key) {
+				return fmt.Errorf("slots %d and %d hold equal keys", i, j)
+			}
+		}
+		if mask < smallHashTableSize {
+			continue
+		}
+		primary := it.key.Hash() & mask
+		if !it.isChained() {
+			if primary != i {
+				return fmt.Errorf("(I3) slot %d is a chain head but its key belongs to slot %d", i, primary)
+			}
+		} else {
+			if primary == i {
+				return fmt.Errorf("slot %d is flagged as chained but is in its primary position", i)
+			}
+			// (I1)(I2): the chain starting at the primary slot reaches this slot
+			cur, steps, found := primary, uintptr(0), false
+			for steps <= n {
+				s := h.slots[cur]
+				if s.isEmpty() || (cur == primary && s.isChained()) {
+					break
+				}
+				if cur == i {
+					found = true
+					break
+				}
+				if !s.hasNext() {
+					break
+				}
+				cur = s.nextIndex()
+				if cur >= n {
+					return fmt.Errorf("slot chain of %d leaves the table", primary)
+				}
+				steps++
+			}
+			if steps > n {
+				return fmt.Errorf("(I1) chain starting at slot %d does not end", primary)
+			}
+			if !found {
+				return fmt.Errorf("(I2) slot %d is not on the chain of its primary slot %d", i, primary)
+			}
+		}
+		if it.hasNext() {
+			nx := it.nextIndex()
+			if nx >= n {
+				return fmt.Errorf("slot %d points outside the table", i)
+			}
+			ns := h.slots[nx]
+			if ns.isEmpty() || !ns.isChained() {
+				return fmt.Errorf("slot %d points at slot %d which is not a chained item", i, nx)
+			}
+			if ns.key.Hash()&mask != primary {
+				return fmt.Errorf("(I2) slots %d and %d are chained but have different primary slots", i, nx)
+			}
+		}
+	}
+	return nil
+}
